@@ -204,6 +204,8 @@ class Field:
     attr_split: str = ""  # '' | 'access_last' | 'access_first': the arguments spread over two attributes
     doc_hidden: bool = False  # #[doc(hidden)] on the field
     zero_pad: bool = False  # bit positions / stride written with a leading zero (010 is decimal ten)
+    list_trailing_comma: bool = False  # [0..=3, 8..=11,]
+    list_split: int = 0  # > 0: the first `list_split` entries in one attribute, the rest in a second #[bits([..])]
 
     @property
     def readable(self):
@@ -233,12 +235,19 @@ class Field:
             return self.raw_attr
         args = []
         Z = (lambda v: f"0{v}") if self.zero_pad else (lambda v: f"{v}")
+        second_list = None
         if self.is_list():
             items = []
             for (lo, n) in self.ranges:
                 items.append(Z(lo) if n == 1 else f"{Z(lo)}..={Z(lo + n - 1)}")
             kw = "bit" if self.form == "bit_list" else "bits"
-            args.append("[" + ", ".join(items) + "]")
+            tc = "," if self.list_trailing_comma else ""
+            if self.list_split and 0 < self.list_split < len(items):
+                second_list = "[" + ", ".join(items[self.list_split:]) + tc + "]"
+                items = items[:self.list_split]
+            else:
+                second_list = None
+            args.append("[" + ", ".join(items) + tc + "]")
         else:
             (lo, n) = self.ranges[0]
             if n == 1 and self.form != "bits1":
@@ -253,7 +262,14 @@ class Field:
             rest = [parts[k] for k in self.arg_order if k != "a" and parts.get(k)]
             first, second = f"#[{kw}({', '.join(rest)})]", f"#[{kw}({parts['a']})]"
             return (first + "\n    " + second) if self.attr_split == "access_last" else (second + "\n    " + first)
-        args = [parts[k] for k in self.arg_order if parts.get(k)]
+        order = self.arg_order
+        if self.is_list() and second_list:
+            # the macro only accepts a list continued in a second attribute when both list groups are the
+            # first argument of their attribute
+            order = "r" + order.replace("r", "")
+        args = [parts[k] for k in order if parts.get(k)]
+        if self.is_list() and second_list:
+            return f"#[{kw}({', '.join(args)})]" + "\n    " + f"#[{kw}({second_list})]"
         return f"#[{kw}({', '.join(args)})]"
 
     def field_ty(self) -> str:
@@ -277,7 +293,7 @@ class Field:
         return out
 
     def sig(self):
-        return (self.ty.sig(), tuple(self.ranges), self.array, self.access, self.form, self.raw_attr, self.arg_order, self.raw_ident, bool(self.doc), self.attr_split, self.doc_hidden, self.zero_pad)
+        return (self.ty.sig(), tuple(self.ranges), self.array, self.access, self.form, self.raw_attr, self.arg_order, self.raw_ident, bool(self.doc), self.attr_split, self.doc_hidden, self.zero_pad, self.list_trailing_comma, self.list_split)
 
 
 @dataclass
